@@ -949,15 +949,14 @@ func _recover(n *node) {
 func _panic(n *node) {
 	value := genValue(n.child[1])
 
-	n.exec = func(f *frame) bltn {
+	genBuiltinDeferWrapper(n, []func(*frame) reflect.Value{value}, nil, func(args []reflect.Value) []reflect.Value {
 		// Panic with the value itself, not with the reflect.Value which holds it,
 		// so that recover (and the host, in Panic.Value) get the original value.
-		v := value(f)
-		if !v.IsValid() {
+		if !args[0].IsValid() {
 			panic(nil)
 		}
-		panic(v.Interface())
-	}
+		panic(args[0].Interface())
+	})
 }
 
 // copyDeferArg returns a copy of an argument of a deferred call. The arguments are
